@@ -15,6 +15,10 @@ line = `<list> width indent haspen pen`.
 * `txt <sparse codes: n (c v)*> <glue spaceskip> <glue xspaceskip> space stretch shrink extra lead <nwords> (<n> chars)*`
       → per word `sf-before has [tag glue]x3` for new model, old model, spec (tag 0 = value, 1 = panic/none)
 * `spl <n> (0 | 1 <n> chars)* <nwords> (<n> chars)*` → `1`/`0`
+* `adt <sparse codes> <glue spaceskip> <glue xspaceskip> space stretch shrink extra <n> text <m> (<n> word <k> runitems)*`
+      → the model's `addText` items (`0 c | 1 c <n> orig lb rb | 2 w | 3 | 4 tag <glue>`); run item = `0 c | 1 w | 2 c <n> orig lb rb`
+* `spt <n> items <n> text` → `spells glue-count` (S on the real list, words split by Lean)
+* `wfs <n> chars` → the fields `box linebreak --widths=<chars>` hands to `parse_from_string`: `<k> (<n> chars)*`
 * `dfl` → plain TeX's defaults: `<n> (c sfcode)* interline club widow broken <glue left> <glue right> <glue parfill> <glue spaceskip> <glue xspaceskip>`
 -/
 open C12 Proto
@@ -176,6 +180,64 @@ def decOptItemsN : Nat → Cur → Option (List (Option (List Nat)) × Cur)
     pure (some cs :: r, c)
   | _ + 1, _ => none
 
+def b2i (b : Bool) : Int := if b then 1 else 0
+
+def decRunItem : Cur → Option (RunItem × Cur)
+  | 0 :: ch :: c => do pure (.char (← nat? ch), c)
+  | 1 :: w :: c => some (.kern w, c)
+  | 2 :: ch :: c => do
+    let (orig, c) ← decNats c
+    match c with
+    | lb :: rb :: c => pure (.lig (← nat? ch) orig (lb != 0) (rb != 0), c)
+    | _ => none
+  | _ => none
+
+def decRunItemsN : Nat → Cur → Option (List RunItem × Cur)
+  | 0, c => some ([], c)
+  | n + 1, c => do
+    let (e, c) ← decRunItem c
+    let (es, c) ← decRunItemsN n c
+    pure (e :: es, c)
+
+def decTableN : Nat → Cur → Option (List (List Nat × List RunItem) × Cur)
+  | 0, c => some ([], c)
+  | n + 1, c => do
+    let (w, c) ← decNats c
+    match c with
+    | m :: c =>
+      let (items, c) ← decRunItemsN (← nat? m) c
+      let (rest, c) ← decTableN n c
+      pure ((w, items) :: rest, c)
+    | [] => none
+
+def encTItem : TItem → List Int
+  | .char c => [0, c]
+  | .lig c orig lb rb => [1, (c : Int), (orig.length : Int)] ++ orig.map Int.ofNat ++ [b2i lb, b2i rb]
+  | .kern w => [2, w]
+  | .disc => [3]
+  | .glue g => 4 :: encRes g
+
+def decTItem : Cur → Option (TItem × Cur)
+  | 0 :: ch :: c => do pure (.char (← nat? ch), c)
+  | 1 :: ch :: c => do
+    let (orig, c) ← decNats c
+    match c with
+    | lb :: rb :: c => pure (.lig (← nat? ch) orig (lb != 0) (rb != 0), c)
+    | _ => none
+  | 2 :: w :: c => some (.kern w, c)
+  | 3 :: c => some (.disc, c)
+  | 4 :: tag :: c => do
+    let (g, c) ← decGlue c
+    pure (.glue (if tag = 0 then .ok g else .panic), c)
+  | _ => none
+
+def decTItemsN : Nat → Cur → Option (List TItem × Cur)
+  | 0, c => some ([], c)
+  | n + 1, c => do
+    let (e, c) ← decTItem c
+    let (es, c) ← decTItemsN n c
+    pure (e :: es, c)
+
 def handle (line : String) : String :=
   match words line with
   | "plb" :: ws =>
@@ -221,14 +283,34 @@ def handle (line : String) : String :=
     | some (g, l) => showInts (encItems (finishPar g l))
     | none => "bad-request"
   | "bsk" :: ws =>
-    match ints? ws with
-    | some (hi :: init :: n :: c) =>
-      match nat? n >>= fun n => decPairsN n c with
-      | some (hd, []) =>
-        showInts ((baselineSkips (if hi != 0 then some init else none) hd).map
-          (fun o => match o with | some w => [1, w] | none => [0, 0])).flatten
-      | _ => "bad-request"
-    | _ => "bad-request"
+    -- `bsk <n> (0 | 1 depth)* <n> (h d pen)*` → per line `has w` (model), then per line `tag w`
+    -- (TeX §679 with \baselineskip=12pt, \lineskiplimit=0pt: 0 none, 1 baseline w, 2 lineskip)
+    match (do
+      let c ← ints? ws
+      match c with
+      | n :: c =>
+        let rec pre : Nat → Cur → Option (List VNode × Cur)
+          | 0, c => some ([], c)
+          | k + 1, 0 :: c => do let (r, c) ← pre k c; pure (VNode.other :: r, c)
+          | k + 1, 1 :: d :: c => do let (r, c) ← pre k c; pure (VNode.box d :: r, c)
+          | _ + 1, _ => none
+        let (v, c) ← pre (← nat? n) c
+        match c with
+        | m :: c =>
+          let rec ls : Nat → Cur → Option (List (Int × Int × Bool) × Cur)
+            | 0, c => some ([], c)
+            | k + 1, h :: d :: p :: c => do let (r, c) ← ls k c; pure ((h, d, p != 0) :: r, c)
+            | _ + 1, _ => none
+          let (lines, c) ← ls (← nat? m) c
+          if c ≠ [] then none else pure (v, lines)
+        | [] => none
+      | [] => none) with
+    | some (v, lines) =>
+      let m := (interline v lines).map (fun o => match o with | some w => [1, w] | none => [0, 0])
+      let t := (texInterlines codeBaselineSkip 0 (texPrevDepth v) lines).map
+        (fun g => match g with | .noGlue => [0, 0] | .baseline w => [1, w] | .lineskip => [2, 0])
+      showInts (m.flatten ++ t.flatten)
+    | none => "bad-request"
   | "txt" :: ws =>
     match (do
       let c ← ints? ws
@@ -257,6 +339,54 @@ def handle (line : String) : String :=
         if c ≠ [] then none else pure (items, words)
       | [] => none) with
     | some (items, words) => if spell items = words.filter (fun w => !w.isEmpty) then "1" else "0"
+    | none => "bad-request"
+  | "adt" :: ws =>
+    match (do
+      let c ← ints? ws
+      match c with
+      | n :: c =>
+        let (sparse, c) ← decPairsN (← nat? n) c
+        let (ss, c) ← decGlue c
+        let (xs, c) ← decGlue c
+        match c with
+        | sp :: st :: sh :: ex :: c =>
+          let (text, c) ← decNats c
+          match c with
+          | m :: c =>
+            let (table, c) ← decTableN (← nat? m) c
+            if c ≠ [] then none
+            else pure (codesOf sparse, ({ spaceSkip := ss, xspaceSkip := xs } : TextParams),
+                       ({ space := sp, stretch := st, shrink := sh, extra := ex } : Font), text, table)
+          | [] => none
+        | _ => none
+      | [] => none) with
+    | some (codes, tp, f, text, table) =>
+      -- a word the table does not know (the two splittings disagree) shows up as `9`
+      let known := (splitWs text).all fun w => (table.find? (·.1 == w)).isSome
+      let run := fun w => match table.find? (·.1 == w) with | some e => e.2 | none => []
+      (if known then "" else "9 ") ++ showInts ((addText run codes tp f text).map encTItem).flatten
+    | none => "bad-request"
+  | "spt" :: ws =>
+    match (do
+      let c ← ints? ws
+      match c with
+      | n :: c =>
+        let (items, c) ← decTItemsN (← nat? n) c
+        let (text, c) ← decNats c
+        if c ≠ [] then none else pure (items, text)
+      | [] => none) with
+    | some (items, text) =>
+      let v := textVerdict items text
+      s!"{b2i v.1} {b2i v.2}"
+    | none => "bad-request"
+  | "wfs" :: ws =>
+    match (do
+      let c ← ints? ws
+      let (str, c) ← decNats c
+      if c ≠ [] then none else pure str) with
+    | some str =>
+      let fs := widthFields str
+      showInts ((fs.length : Int) :: (fs.map fun f => (f.length : Int) :: f.map Int.ofNat).flatten)
     | none => "bad-request"
   | ["dfl"] =>
     let sparse := ((List.range 256).filter fun (c : Nat) => plainSfCode c != 1000).map
